@@ -349,6 +349,19 @@ func TestProxyMapOverPolicyReloads(t *testing.T) {
 			if global {
 				r.Class("reload with an enabled global remedy")
 			}
+			// a large configuration: one reload in six declares many further endpoints (one per service of a
+			// provider), far more than the handful above
+			bulk := 0
+			if rapid.IntRange(0, 5).Draw(t, "bulk") == 0 {
+				bulk = rapid.SampledFrom([]int{60, 125, 126, 127, 128, 129, 130, 131, 200, 303}).Draw(t, "bulk-endpoints")
+				r.Class(fmt.Sprintf("reload with >=128 endpoints=%v", bulk+len(eps) >= 128))
+			}
+			small := eps
+			bulkAt := len(eps)
+			eps = append([]spec{}, eps...)
+			for i := 0; i < bulk; i++ {
+				eps = append(eps, spec{Name: fmt.Sprintf("bulk%d", i), URL: fmt.Sprintf("bulk.com/svc%d/{id}", i), Methods: []string{"GET"}})
+			}
 			res, err := configuration.UnmarshalPolicyRawData[sharedConfig.PoliciesConfig](polRender(eps, dir, global))
 			if err != nil {
 				r.Class("policies rejected by the parser")
@@ -380,8 +393,37 @@ func TestProxyMapOverPolicyReloads(t *testing.T) {
 			tree := &polAcc.GetCurrentPoliciesData().EndpointPolicyTree
 			check := func(when string) {
 				keys, all, _ := proxy.state()
+				// every one of the many endpoints: its own expression must be in the proxy's map (and match)
+				if bulk > 0 && !all {
+					have := map[string]bool{}
+					for _, k := range keys {
+						have[k] = true
+					}
+					for _, e := range eps[bulkAt:] {
+						r.Case()
+						q := request{Method: "GET", URL: strings.Replace(e.URL, "{id}", "7", 1)}
+						own := config.HaproxyEndpointFormat("GET", e.URL, nil).Endpoint
+						lr := tree.Lookup(q.URL)
+						if lr.Value == nil {
+							continue
+						}
+						if _, ok := (*lr.Value)[urltree.Method("GET")]; !ok {
+							continue
+						}
+						if have[own] && search([]string{own}, q.Method, q.URL) {
+							continue
+						}
+						if search(keys, q.Method, q.URL) {
+							continue
+						}
+						fail := &caseRepr{Kind: "policy reloads", Subject: e, Request: q}
+						fail.Note = fmt.Sprintf("policy reload %d (%d endpoints), %s: the engine applies the policy of GET %s to GET %s, but none of the %d expressions of the proxy's managed map matches it: the transaction bypasses the engine",
+							si, len(eps), when, e.URL, q.URL, len(keys))
+						t.Fatalf("%s", r.Fail(map[string]any{"reloads": steps, "bulk_endpoints_in_this_reload": bulk, "failure": fail}, "%s", fail.Note))
+					}
+				}
 				for k := 0; k < 4; k++ {
-					d := genDerived(t, eps)
+					d := genDerived(t, small)
 					r.Case()
 					lr := tree.Lookup(d.q.URL)
 					if lr.Value == nil {
